@@ -48,3 +48,9 @@ e2prop("C09", "BLS / threshold BLS / BDN / CoSi", "c09",
        ["bls.NewSchemeOnG1/G2", "bls.scheme.NewKeyPair/Sign/Verify", "tbls.scheme.Sign/IndexOf/VerifyPartial/VerifyRecovered/Recover", "tbls.SigShare.Index/Value", "bdn.NewMask", "bdn.Mask.SetBit/SetMask/Merge/Clone/GetBit/CountEnabled/IndexOfNthEnabled/NthEnabledAtIndex/Mask", "bdn.hashPointToR", "bdn.Scheme.AggregateSignatures/AggregatePublicKeys/Sign/Verify", "cosi.Commit/AggregateCommitments/Challenge/Response/AggregateResponses/Sign/Verify", "cosi.NewMask", "cosi.Mask.SetMask/SetBit/CountEnabled/IndexEnabled", "cosi.ThresholdPolicy/CompletePolicy", "share.RecoverCommit", "PubPoly.Eval"],
        ["quick: tbls 2<=t<=n<=5, all t-subsets in 3 orders plus 10 fault patterns per (t,n); BDN n<=4 every non-empty mask x 6 constructions (+ one 9-key mask), every other mask tried as verifier; CoSi n<=4 every non-empty mask, thresholds 0..n (+ one 9-key mask)", "thorough: tbls n<=8, BDN/CoSi n<=6, second solver"],
        ["the real pairing (C06) and hash-to-curve: Hash(m) is a random-oracle point", "n beyond the bounds", "mask bit kernels for symbolic indices are the E1 part"])
+
+e2prop("C12", "Threshold Schnorr (DSS)", "c12",
+       "the real sign/dss runs on symbolic distributed keys (sharing polynomials with symbolic coefficients, and outputs of a symbolic run of the real Pedersen DKG): every participant derives the same signature from any t partials in any order; it satisfies the Schnorr/EdDSA equation under the distributed key for all values; invalid-but-authenticated, forged, other-session, other-message, duplicate, out-of-range and index-swapped partials are rejected and the final signature is unaffected; fewer than t partials give no signature. On the concrete twin the signature is additionally checked with eddsa.Verify and crypto/ed25519.Verify.",
+       ["dss.NewDSS", "DSS.PartialSig", "DSS.ProcessPartialSig", "DSS.EnoughPartialSig", "DSS.Signature", "DSS.hashSig", "dss.sessionID", "PartialSig.Hash", "dss.findPub", "dss.Verify (concrete twin)", "share.RecoverSecret", "PubPoly.Eval", "schnorr.Sign/Verify", "dkg(pedersen).NewDistKeyHandler/Deals/ProcessDeals/ProcessResponses (keys=dkg scenarios)"],
+       ["quick: 2<=n<=4, 1<=t<=n, every t-subset of signers in 2-3 orders, 9 fault kinds per (n,t), DKG-derived keys for (3,2),(4,3)", "thorough: n<=6, DKG-derived keys also (5,3),(5,4), second solver"],
+       ["dss.Verify/eddsa.Verify are Ed25519-concrete: exercised on the concrete twin only", "n > 6", "Rabin-DKG-derived keys (same DistKeyShare interface)"])
